@@ -170,8 +170,10 @@ func (s *State) URL() string {
 	return u
 }
 
-// QueryParams parses the query string (name -> values); the vocabulary never
-// needs escaping.
+// QueryParams parses the raw query string into decoded name -> values
+// (application/x-www-form-urlencoded: pairs separated by '&', name and value
+// separated by the first '=', '+' is a space, %XX is a byte). Written here, not
+// taken from martian or net/url.
 func (s *State) QueryParams() map[string][]string {
 	out := map[string][]string{}
 	if s.Query == "" {
@@ -185,9 +187,41 @@ func (s *State) QueryParams() map[string][]string {
 		if i := strings.IndexByte(kv, '='); i >= 0 {
 			k, v = kv[:i], kv[i+1:]
 		}
+		k, v = unescapeQ(k), unescapeQ(v)
 		out[k] = append(out[k], v)
 	}
 	return out
+}
+
+func unhex(c byte) byte {
+	switch {
+	case c >= '0' && c <= '9':
+		return c - '0'
+	case c >= 'a' && c <= 'f':
+		return c - 'a' + 10
+	case c >= 'A' && c <= 'F':
+		return c - 'A' + 10
+	}
+	return 0
+}
+
+func unescapeQ(s string) string {
+	if !strings.ContainsAny(s, "%+") {
+		return s
+	}
+	b := make([]byte, 0, len(s))
+	for i := 0; i < len(s); i++ {
+		switch {
+		case s[i] == '+':
+			b = append(b, ' ')
+		case s[i] == '%' && i+2 < len(s):
+			b = append(b, unhex(s[i+1])<<4|unhex(s[i+2]))
+			i += 2
+		default:
+			b = append(b, s[i])
+		}
+	}
+	return string(b)
 }
 
 // Port is the effective port of the request URL.
